@@ -328,7 +328,7 @@ impl<T: Engine> Block for FftFilter<T> {
 /// therefore, this Float version of the FftFilter has a little worse
 /// performance than the Complex filter.
 #[derive(rustradio_macros::Block)]
-#[rustradio(crate)]
+#[rustradio(crate, noeof)]
 pub struct FftFilterFloat<T: Engine> {
     complex: FftFilter<T>,
     #[rustradio(in)]
@@ -384,6 +384,25 @@ impl<T: Engine> FftFilterFloat<T> {
             },
             dr,
         )
+    }
+}
+
+impl<T: Engine> crate::block::BlockEOF for FftFilterFloat<T> {
+    fn eof(&mut self) -> bool {
+        // The outer input having ended is not enough: samples may still be
+        // parked in the inner streams, on their way in or out.
+        if !self.src.eof() {
+            return false;
+        }
+        let parked_out = self.inner_out.read_buf().map(|(b, _)| b.len()).unwrap_or(0);
+        let parked_in = self
+            .complex
+            .src
+            .read_buf()
+            .map(|(b, _)| b.len())
+            .unwrap_or(0);
+        // Less than a full FFT block of input never produces output.
+        parked_out == 0 && self.complex.buf.len() + parked_in < self.complex.nsamples
     }
 }
 
